@@ -10,7 +10,7 @@ from mon.gen import mdp as G
 from mon.ref import mdp as Rf
 
 PROP = "C01"
-CASES = {"quick": 640, "thorough": 16000}
+CASES = {"quick": 640, "thorough": 100000}
 CASE_TIMEOUT = 120
 SHARD_TIMEOUT = {"quick": 900, "thorough": 7200}
 REQUIRED = ["vi_vec_calls", "vi_dict_calls", "pi_calls", "pi_batch_calls", "policy_rows_checked"]
